@@ -118,7 +118,8 @@ def probe_keys(universe, rng=None):
     """Lookup keys: the universe, proper prefixes, one-byte extensions and siblings of its keys."""
     ps = set(universe)
     for k in universe:
-        for i in range(len(k)):
+        # every proper prefix of a short key; of a long key (wide universes) the ends and the middle
+        for i in (range(len(k)) if len(k) <= 8 else (0, 1, 2, len(k) // 2, len(k) - 2, len(k) - 1)):
             ps.add(k[:i])
         ps.add(k + b"\x00")
         ps.add(k + b"\xff")
